@@ -78,6 +78,10 @@ def run(ck):
             linepair = pr['n1'] == 1 or pr['n2'] == 1
             for x, y, u, v in ((a, b, t1, t2), (b, a, t2, t1)):
                 report_case(ck, tag, x, y, [(u, v, x.point(u))], {'pr': pr, 'q': q}, exact_count=1 if linepair else None)
+            if linepair:
+                fa, fb = a.scaled(1e-3).translated(4000 + 3000j), b.scaled(1e-3).translated(4000 + 3000j)
+                ck.case(fp=('pair-far', q, str(pr)), nontrivial=True)
+                report_case(ck, tag + ' scaled 1e-3 at 4000+3000j', fa, fb, [(t1, t2, fa.point(t1))], {'pr': pr, 'q': q, 'far': True}, exact_count=1)
         ck.sample('constructed/Q=%d' % q, cases[0])
     ck.count('skipped_small_angle', skipped)
     # point-symmetric pairs derived from the model's curves: a curve against its own half-turn about M = (B(1/3) + B(2/3))/2 crosses it at the
